@@ -1350,6 +1350,9 @@ func isFileDecode(c *Ctx, v ssa.Value, depth int) bool {
 					if _, isConst := rv.(*ssa.Const); isConst && len(ret.Results) > 1 {
 						continue // the error return hands back a zero value
 					}
+					if k, isK := constInt(rv); isK && k == 0 {
+						continue // ... also of a reader object that remembers its first error instead of returning it
+					}
 					if !isFileDecode(c, rv, depth+1) {
 						return false
 					}
